@@ -239,5 +239,6 @@ Qed.
 (* the source the model mirrors is the source of the current /repo                                   *)
 (* ---------------------------------------------------------------------------------------------- *)
 Lemma source_shape :
-  shape_send_scp_burst = mirrored_send_scp_burst /\ shape_send_scp = mirrored_send_scp /\ shape_seqs = mirrored_seqs.
+  shape_send_scp_burst = mirrored_send_scp_burst /\ shape_send_scp = mirrored_send_scp /\ shape_init = mirrored_init
+  /\ shape_seqs = mirrored_seqs.
 Proof. repeat split; reflexivity. Qed.
